@@ -16,6 +16,17 @@ pub const NCAL: [i64; 20] = [
     2301004, 2342304, 2299161, 2421960, 2421640, 2422063, 2421639, 2422036, 2325606,
 ];
 
+/// the country codes the command accepts for `-r`, with their reformation days (used only to aim the
+/// arguments at the days that matter in the selected calendar)
+pub const COUNTRIES: [(&str, i64); 34] = [
+    ("AL", 2419751), ("AT", 2299527), ("AU", 2361222), ("BE", 2299232), ("BG", 2420968), ("CA", 2361222),
+    ("CH", 2325606), ("CN", 2419403), ("CZ", 2299620), ("DE", 2342032), ("DK", 2342032), ("ES", 2299161),
+    ("FI", 2361390), ("FR", 2299227), ("GB", 2361222), ("GR", 2423868), ("HU", 2301004), ("IS", 2342304),
+    ("IT", 2299161), ("JP", 2421960), ("LI", 2421640), ("LU", 2299232), ("LV", 2421640), ("NL", 2299232),
+    ("NO", 2342032), ("PL", 2299161), ("PT", 2299161), ("RO", 2422063), ("RU", 2421639), ("SE", 2361390),
+    ("SI", 2422036), ("TR", 2424882), ("US", 2361222), ("YU", 2422036),
+];
+
 pub struct Gen {
     pub rng: Rng,
     pub dict: Vec<i64>,
@@ -193,6 +204,12 @@ impl Gen {
             (0..=2, Some(_), OCal::Reforming(r)) => {
                 self.hit("j:R-edge");
                 r + self.rng.range(-3, 2)
+            }
+            (3, Some(_), OCal::Reforming(r)) => {
+                // the rest of the two months the gap is cut out of: the days whose ordinals or labels
+                // are shifted by the gap without being next to it
+                self.hit("j:R-months");
+                r + self.rng.range(-45, 45)
             }
             (3..=8, Some((a, b)), _) => {
                 self.hit("j:window");
@@ -586,6 +603,12 @@ fn cli_option(g: &mut Gen) -> Vec<String> {
     let r = g.reformation();
     let codes = ["gb", "GB", "Gb", "it", "US", "se", "RU", "tr", "xx", "g", "gbr", ""];
     let rv = match g.rng.below(6) {
+        0 if g.rng.chance(1, 2) => {
+            // any country of the table (as it was when this harness was written; the model holds the
+            // table that is generated from the source), in either case
+            let (code, _) = *g.rng.pick(&COUNTRIES);
+            if g.rng.chance(1, 2) { code.to_string() } else { code.to_ascii_lowercase() }
+        }
         0 => (*g.rng.pick(&codes)).to_string(),
         1 => (*g.rng.pick(&["1830691", "2147439589", "abc", "-5", "+2299161", " 2299161", "1e6", "２２"])).to_string(),
         _ => r.to_string(),
@@ -1340,8 +1363,8 @@ pub fn emit(prop: &str, g: &mut Gen, out: &mut Vec<String>) {
                             if (R_MIN..=R_MAX).contains(&r) {
                                 oc = OCal::Reforming(r);
                             }
-                        } else if v.eq_ignore_ascii_case("gb") || v.eq_ignore_ascii_case("us") {
-                            oc = OCal::Reforming(2361222);
+                        } else if let Some((_, r)) = COUNTRIES.iter().find(|(c, _)| v.eq_ignore_ascii_case(c)) {
+                            oc = OCal::Reforming(*r);
                         }
                     }
                 }
